@@ -121,8 +121,17 @@ def templates(tier, seed):
             for f2 in ("dir:v", "loc:tl", "edge:b"):
                 for order in ("pmr", "mpr", "prm", "rpm", "mrp"):
                     tds.append(dict(fam="chain", rk=rk, f1=f1, f2=f2, ref2="#m", order=order))
+            # the last element takes its SIZE from the middle one, whose own size is adjusted by dw / dh
+            for f2 in ("size:wh", "size:pct", "size:w~h"):
+                for order in ("rmp", "pmr", "mpr", "prm", "mrp"):
+                    for mdw in (False, True):
+                        tds.append(dict(fam="chain", rk=rk, f1=f1, f2=f2, ref2="#m", order=order, mdw=mdw))
+    # element ids are XML names: letters of any script, digits, '_', '-', '.'; an id that extends another id is a different element
+    for ident in ("größe", "nœud_1", "aé", "a1", "a_b", "a-b", "Ωmega", "图形", "a"):
+        for form in ("loc", "dir", "size", "scalar"):
+            tds.append(dict(fam="idforms", ident=ident, form=form))
     if tier == "quick":
-        tds = sample_quota(tds, lambda t: (t["fam"], t.get("rk")), {"dir": 1000, "loc": 400, "edge": 150, "scalar": 200, "scalar1": 200, "size": 1000, "chain": 1000}, seed)
+        tds = sample_quota(tds, lambda t: (t["fam"], t.get("rk")), {"dir": 1000, "loc": 400, "edge": 150, "scalar": 200, "scalar1": 200, "size": 1000, "chain": 1000, "idforms": 100}, seed)
     return tds
 
 
@@ -426,6 +435,25 @@ def build(td, wrong=False):
         doc = "<svg>" + rm + pm + "</svg>"
         # sizes may come out negative for negative deltas: both sides agree symbolically, nothing else is asserted
         return Template(f"size/{td['rk']}/{form}/{pk}", doc, vars_, std_check(obls, wrong), family="relative-size", role=f"C09/size/{form.split('-')[0]}", cap=12)
+    if fam == "idforms":
+        ident, form = td["ident"], td["form"]
+        vars_ = [(7, *POS), (-4, *POS), (20, *SZI), (10, *SZI)]
+        decoy = '<rect id="a" xy="500 500" wh="77 33"/>' if ident != "a" else '<rect id="b" xy="500 500" wh="77 33"/>'
+        target = f'<rect id="{ident}" xy="[[0]] [[1]]" wh="[[2]] [[3]]"/>'
+        pm = {"loc": f'<rect id="p" xy="#{ident}@br" wh="3 4"/>', "dir": f'<rect id="p" xy="#{ident}|h 2" wh="3 4"/>',
+              "size": f'<rect id="p" xy="1 2" wh="#{ident} 50%"/>', "scalar": f'<rect id="p" x="#{ident}~x2" y="#{ident}~cy" wh="3 4"/>'}[form]
+        tb = G.Box("v0", "v1", plus("v0", "v2"), plus("v1", "v3"))
+
+        def obls_id(o, pb):
+            if form == "loc":
+                return [Obl("x1", ne(pb.x1, plus(tb.x2, W))), Obl("y1", ne(pb.y1, tb.y2))]
+            if form == "dir":
+                return [Obl("x1", ne(pb.x1, plus(plus(tb.x2, "2.0"), W))), Obl("y1", ne(pb.y1, minus(tb.cy, "2.0")))]
+            if form == "size":
+                return [Obl("w", ne(pb.w, plus(half("v2"), W))), Obl("h", ne(pb.h, half("v3")))]
+            return [Obl("x1", ne(pb.x1, plus(tb.x2, W))), Obl("y1", ne(pb.y1, tb.cy))]
+        doc = "<svg>" + decoy + target + pm + "</svg>"
+        return Template(f"idforms/{ident}/{form}", doc, vars_, std_check(obls_id, wrong), family="id-forms", role="C09/idforms", cap=4)
     if fam == "chain":
         rm, rvars, vbox, vis = RKS[td["rk"]]
         vars_ = list(rvars)
@@ -455,11 +483,21 @@ def build(td, wrong=False):
                 lx, ly = rb.loc(arg)
                 return plus(lx, g), plus(ly, g)
             return rb.edge(arg, g)
+        mdw = td.get("mdw") and not td["f1"].startswith("cloc")
+        kdw = len(vars_)
+        if mdw:
+            vars_ += [(3, 0, 16, 0)]
         if td["f1"].startswith("cloc"):
             m = f'<circle id="m" {rel(td["f1"], "#r", kg)} r="[[{km}]]"/>'
+        elif mdw:
+            m = f'<rect id="m" {rel(td["f1"], "#r", kg)} width="[[{km}]]" height="[[{km + 1}]]" dw="[[{kdw}]]" dh="2"/>'
         else:
             m = f'<rect id="m" {rel(td["f1"], "#r", kg)} wh="[[{km}]] [[{km + 1}]]"/>'
-        p = f'<rect id="p" {rel(td["f2"], td["ref2"], kg + 1)} wh="[[{kp}]] [[{kp + 1}]]"/>'
+        if td["f2"].startswith("size:"):
+            szform = {"wh": 'wh="#m"', "pct": 'wh="#m 50%"', "w~h": 'width="#m~h" height="#m~w"'}[td["f2"][5:]]
+            p = f'<rect id="p" xy="[[{kp}]] [[{kp + 1}]]" {szform}/>'
+        else:
+            p = f'<rect id="p" {rel(td["f2"], td["ref2"], kg + 1)} wh="[[{kp}]] [[{kp + 1}]]"/>'
 
         def obls(o, pb):
             rb = ref_box(o, td["rk"], vis, vbox)
@@ -468,13 +506,19 @@ def build(td, wrong=False):
                 mx, my = minus(plus(lx, f"v{kg}"), f"v{km}"), minus(plus(ly, f"v{kg}"), f"v{km}")
                 mb = G.Box(mx, my, plus(mx, mul("2.0", f"v{km}")), plus(my, mul("2.0", f"v{km}")))
             else:
-                mx, my = place(td["f1"], rb, f"v{km}", f"v{km + 1}", f"v{kg}")
-                mb = G.Box(mx, my, plus(mx, f"v{km}"), plus(my, f"v{km + 1}"))
+                mw, mh = (plus(f"v{km}", f"v{kdw}"), plus(f"v{km + 1}", "2.0")) if mdw else (f"v{km}", f"v{km + 1}")
+                mx, my = place(td["f1"], rb, mw, mh, f"v{kg}")
+                mb = G.Box(mx, my, plus(mx, mw), plus(my, mh))
+            if td["f2"].startswith("size:"):
+                mel = G.elem_box(o, o.by_id("m"))
+                ew, eh = {"wh": (mb.w, mb.h), "pct": (half(mb.w), half(mb.h)), "w~h": (mb.h, mb.w)}[td["f2"][5:]]
+                return [Obl("mid-x1", ne(mel.x1, mx)), Obl("mid-y1", ne(mel.y1, my)), Obl("mid-w", ne(mel.w, mb.w)), Obl("x1", ne(pb.x1, plus(f"v{kp}", W))), Obl("y1", ne(pb.y1, f"v{kp + 1}")),
+                        Obl("w", ne(pb.w, ew)), Obl("h", ne(pb.h, eh))]
             ex, ey = place(td["f2"], mb, f"v{kp}", f"v{kp + 1}", f"v{kg + 1}")
             mel = G.elem_box(o, o.by_id("m"))
             return [Obl("mid-x1", ne(mel.x1, mx)), Obl("mid-y1", ne(mel.y1, my)), Obl("x1", ne(pb.x1, plus(ex, W))), Obl("y1", ne(pb.y1, ey)),
                     Obl("w", ne(pb.w, f"v{kp}")), Obl("h", ne(pb.h, f"v{kp + 1}"))]
         parts = {"r": rm, "m": m, "p": p}
         doc = "<svg>" + "".join(parts[c] for c in td.get("order", "rmp")) + "</svg>"
-        return Template(f"chain/{td['rk']}/{td['f1']}/{td['f2']}/{td['ref2']}/{td.get('order', 'rmp')}", doc, vars_, std_check(obls, wrong), family="chain", role="C09/chain", cap=16)
+        return Template(f"chain/{td['rk']}/{td['f1']}/{td['f2']}/{td['ref2']}/{td.get('order', 'rmp')}" + ("/mdw" if mdw else ""), doc, vars_, std_check(obls, wrong), family="chain", role="C09/chain", cap=16)
     raise ValueError(fam)
